@@ -5,7 +5,19 @@ use crate::refmodel::{Arg, Combo, Tr};
 /// Name of the i-th named field.  Deliberately NOT in alphabetical order, so that anything
 /// that orders fields by name instead of by declaration position is observable.
 pub fn fname(i: usize) -> String {
+    if RAW_FIELD_NAMES.with(|r| r.get()) {
+        return ["r#type", "r#fn", "r#match", "r#loop", "r#move", "r#ref"][i % 6].to_string();
+    }
     format!("{}{}", ["q", "c", "x", "a", "m", "b"][i % 6], i)
+}
+
+thread_local! {
+    static RAW_FIELD_NAMES: std::cell::Cell<bool> = std::cell::Cell::new(false);
+}
+/// While set, `fname` yields raw-identifier keywords (`r#type`, `r#fn`, ..) - used by the checks that
+/// build one case at a time (C07, C08, C10) to cover raw field names.
+pub fn set_raw_field_names(on: bool) {
+    RAW_FIELD_NAMES.with(|r| r.set(on));
 }
 
 #[derive(Clone, Debug, Default)]
@@ -293,6 +305,22 @@ pub fn attr_text(attr: Tr, arg: Arg, style: KeyStyle, form: KeyForm) -> String {
         return String::new();
     }
     format!("#[{}({})]", attr.attr(), parts.join(", "))
+}
+
+/// like `combo_attrs`, but the key of attribute `identity` (if it carries one) is written `$`
+pub fn combo_attrs_id(c: &Combo, style: KeyStyle, form: KeyForm, identity: Option<Tr>) -> Vec<String> {
+    Tr::ALL
+        .iter()
+        .map(|&t| {
+            let a = attr_text(t, c.get(t), style, form);
+            if identity == Some(t) && c.get(t).key() {
+                a.replace(&format!("key = {}", key_expr(t, style, form)), "key = $")
+            } else {
+                a
+            }
+        })
+        .filter(|s| !s.is_empty())
+        .collect()
 }
 
 pub fn combo_attrs(c: &Combo, style: KeyStyle, form: KeyForm) -> Vec<String> {
